@@ -39,7 +39,7 @@ class DtypeVal:
         return hash(("dtype", self.kind))
 
 
-DTYPE_NAMES = {"O": "O", "object": "O", "float64": "f", "f8": "f", "float": "f", "int64": "i", "i8": "i", "int": "i", "bool": "b"}
+DTYPE_NAMES = {"O": "O", "object": "O", "float64": "f", "f8": "f", "float": "f", "d": "f", "double": "f", "int64": "i", "i8": "i", "int": "i", "bool": "b"}
 
 
 def is_nan(x):
@@ -509,11 +509,24 @@ def nd_getattr(I, st, ref, name):
     elif name == "size":
         yield st, size(e.shape)
     elif name == "T":
+        if len(e.shape) > 2:
+            raise Unsupported("ndarray.T of an array with more than 2 axes")
         if len(e.shape) != 2:
             yield st, ref
         else:
             r, c = e.shape
             yield st, st.alloc(NdE((c, r), [e.data[i * c + j] for j in range(c) for i in range(r)]))
+    elif name == "transpose":
+        # a.transpose() without arguments == a.T (axes reversed); only for <= 2 axes, as .T above
+        def _tr(I, st, *axes):
+            ee = st.get(ref)
+            if axes or len(ee.shape) > 2:
+                raise Unsupported("ndarray.transpose with axes / more than 2 axes")
+            if len(ee.shape) != 2:
+                return ref
+            r, c = ee.shape
+            return st.alloc(NdE((c, r), [ee.data[i * c + j] for j in range(c) for i in range(r)]))
+        yield st, simple(_tr)
     elif name == "dot":
         yield st, simple(lambda I, st, b: dot(I, st, ref, b))
     elif name == "any":
@@ -635,8 +648,8 @@ def make_module(I):
         dt = None
         if isinstance(dtype, BuiltinClass) and dtype.name == "float":
             dt = "float"
-        elif isinstance(dtype, DtypeVal) or (isinstance(dtype, BuiltinClass) and dtype.name == "object"):
-            k = as_dtype_kind(dtype)
+        elif isinstance(dtype, DtypeVal) or isinstance(dtype, str) or (isinstance(dtype, BuiltinClass) and dtype.name == "object"):
+            k = as_dtype_kind(dtype)  # a dtype given by name ("d", "float64", ...): same kinds, unknown names are Unsupported
             if k == "f":
                 dt = "float"
             elif k == "O":
